@@ -181,7 +181,8 @@ class Module:
         self.path = path
         self.rel = rel
         self.src = src
-        self.tree = ast.parse(src, filename=path)
+        from .normalize import canonical
+        self.tree = canonical(ast.parse(src, filename=path))
         self.imports: dict[str, str] = {}
         self.defs: dict[str, ast.AST] = {}
         self.assigns: dict[str, ast.AST] = {}
